@@ -272,6 +272,28 @@ func checkC07(p *Prog, r *Report) {
 	r.Check(present && has(perms, strings.Trim(burnerC, `"`)), kp("WIRE", "maccPerms[burn]∋burner"), "the burn module account may burn", p.Pos(w.MaccPos), fmt.Sprint(perms),
 		fmt.Sprintf("maccPerms[%s] = %v lacks the Burner permission: bank panics/refuses and nothing is ever burned", modC, perms))
 	r.Check(has(w.Orders["SetOrderEndBlockers"], strings.Trim(modC, `"`)), kp("WIRE", "endblockers∋burn"), "the burn module is in the end-blocker order", "app/app.go", "present", "burn is missing from SetOrderEndBlockers")
+	// burn runs after every module that can move coins in its own EndBlock (otherwise coins sent to the burn address later in the
+	// same block — e.g. by an executed governance proposal — are still there when the block ends). Only modules without any
+	// bank capability (C15-D1: aol, did, pnft) may follow it.
+	eb := w.Orders["SetOrderEndBlockers"]
+	bi := -1
+	for i, n := range eb {
+		if n == strings.Trim(modC, `"`) {
+			bi = i
+		}
+	}
+	var after []string
+	okAfter := bi >= 0
+	if bi >= 0 {
+		for _, n := range eb[bi+1:] {
+			after = append(after, n)
+			if n != "aol" && n != "did" && n != "pnft" {
+				okAfter = false
+			}
+		}
+	}
+	r.Check(okAfter, kp("WIRE", "endblockers#burn-after-coin-movers"), "the burn end-blocker runs after every module whose end-blocker can move coins (only the coin-less custom modules may follow it)", "app/app.go",
+		fmt.Sprintf("modules after burn: %v", after), fmt.Sprintf("modules whose EndBlock runs after the burn: %v — coins they send to the burn address (executed proposals, unbonding, …) remain spendable there at the end of the block", after))
 	r.Check(has(w.Manager, Rel("x/burn")), kp("WIRE", "manager∋burn"), "the burn module is registered in the module manager", p.Pos(w.ManagerPos), "present", "burn.NewAppModule is not passed to module.NewManager")
 	// keeper built from the bank keeper
 	initK := p.Method(Rel("app/keepers"), "AppKeepersWithKey", "InitKeyAndKeepers")
